@@ -25,6 +25,8 @@ def build_problem(ps):
     if kind == "boxdomain":
         _, _, n, m, kw = ps
         return gen.boxdomain_problem(rng, n, m, **kw)
+    if kind == "simplex":
+        return gen.simplex_qp(rng, ps[2])
     if kind == "logdomain":
         return gen.logdomain_problem(rng, ps[2], cons=bool(ps[3]))
     if kind == "equalmult":
